@@ -544,7 +544,8 @@ func (sp *subProcess) ceaseFlowMonitor(tracer tracing.ITracer) func(ctx context.
 	}
 }
 
-func (sp *subProcess) run(ctx context.Context, out tracing.ITracer) {
+func (sp *subProcess) run(ctx context.Context, out tracing.ITracer, sender tracing.ISenderHandle) {
+	defer sender.Done()
 	defer sp.cancel()
 	for {
 		select {
@@ -560,7 +561,10 @@ func (sp *subProcess) run(ctx context.Context, out tracing.ITracer) {
 					return
 				}
 			case nextActionMessage:
+				// the activation goroutine forwards the inner traces to `out`
+				activationSender := out.RegisterSender()
 				go func() {
+					defer activationSender.Done()
 					sp.active.Add(1)
 					defer sp.active.Add(-1)
 
@@ -625,7 +629,9 @@ func (sp *subProcess) NextAction(ctx context.Context, flow Flow) chan IAction {
 		// below is registered and where run() waits for the cease-flow trace
 		sender := sp.subTracer.RegisterSender()
 		go sp.ceaseFlowMonitor(sp.subTracer)(ctx, sender)
-		go sp.run(ctx, sp.wr.tracer)
+		// run sends traces on the enclosing tracer: that tracer has to wait for it
+		runSender := sp.wr.tracer.RegisterSender()
+		go sp.run(ctx, sp.wr.tracer, runSender)
 	}
 
 	response := make(chan IAction, 1)
